@@ -3,7 +3,7 @@
    Model: Model/Patch.v (parser, hunks, Workspace::apply_patch with the first-seen undo list) over
    the file-system model Base/Fs.v.  `apply_patch true` is the code after fix 6739939, `apply_patch
    false` the code before it. *)
-From RipV Require Import Base.Prelude Base.Fs Model.Patch Proofs.FsProofs Proofs.PatchProofs Proofs.PatchAtomic Proofs.PatchText Proofs.PatchParse Proofs.PatchExamples.
+From RipV Require Import Base.Prelude Base.Fs Model.Patch Proofs.FsProofs Proofs.PatchProofs Proofs.PatchAtomic Proofs.PatchText Proofs.PatchParse Proofs.PatchExamples Proofs.PatchEffects.
 
 (* ---- ATOMICITY (the code after fix 6739939).  For every well-formed workspace tree f (unique
    keys, every entry's ancestors are directories), every patch document (well-formed or not), every
@@ -64,6 +64,17 @@ Theorem c12_success_spec : forall (fixed : bool) (root : path) (f : fs) (ops : l
   spec_ops root f ops = Ok f' /\ changed = sort_dedup (map normalize_rel (affected_paths ops)).
 Proof. exact success_spec. Qed.
 Print Assumptions c12_success_spec.
+
+(* the same on the files only, with no reference to the file-system model's operations: the meaning of
+   the operations.  effects m ops m' chains, in order: Add p c — p holds no file, afterwards it holds c;
+   Del p — p holds a file, afterwards none; Upd p hs — p holds UTF-8 text b, afterwards the hunks applied
+   to b; with Move to t — t is another path holding no file, afterwards p holds none and t the new text;
+   every other path is untouched *)
+Theorem c12_success_effects : forall (f : fs) (ops : list op) (f' : fs) (changed : list (list N)),
+  fs_wf f -> apply_ops true [] f ops = Applied f' changed ->
+  effects (file_at f) ops (file_at f') /\ changed = sort_dedup (map normalize_rel (affected_paths ops)).
+Proof. exact success_effects. Qed.
+Print Assumptions c12_success_effects.
 
 Theorem c12_success_complete : forall (fixed : bool) (root : path) (f : fs) (ops : list op) (f' : fs),
   spec_ops root f ops = Ok f' -> apply_ops fixed root f ops = Applied f' (changed_files ops).
